@@ -2,6 +2,7 @@ package mon
 
 import (
 	"bufio"
+	"bytes"
 	"fmt"
 	"math"
 	"os"
@@ -508,10 +509,73 @@ func c19Judge(c *core.Ctx, n *c19Node, desc any, path string, sigs map[string]bo
 	}
 }
 
+// c19Tower: "nested Stacks - direct elements or a Condition's expression - are compacted the same way", however far down.
+// Every level holds a label, a run of nils and the next level (alternately as an element and as the expression of a
+// Condition); each level is judged by the same step-by-step model as a flat stack.
+func c19Tower(c *core.Ctx) {
+	r := c.Rng
+	depth := []int{40, 255, 257, 300, 1000}[r.Intn(5)]
+	if r.Chance(1, 3) {
+		depth = r.Range(4094, 4200)
+	}
+	if c.Tier == "thorough" && r.Chance(1, 4) {
+		depth = r.Range(9990, 10050)
+	}
+	// (five interior nils before a non-nil last element is a shape the known truncation arithmetic happens to get right:
+	// with any other count the top level already loses its tail - the known finding - and nothing below is visited)
+	nils := 5
+	type level struct {
+		s    stackage.Stack
+		orig []any
+	}
+	levels := make([]level, depth)
+	var below any = "bottom"
+	for k := depth - 1; k >= 0; k-- {
+		s := stackage.Basic()
+		if k%3 == 0 {
+			s = stackage.And()
+		}
+		var orig []any
+		label := fmt.Sprintf("level-%d", k)
+		s.Push(label)
+		orig = append(orig, label)
+		for i := 0; i < nils; i++ {
+			s.Push(nil)
+			orig = append(orig, nil)
+		}
+		held := below
+		if k%2 == 1 && k != depth-1 {
+			held = stackage.Cond("down", stackage.Eq, below)
+		}
+		s.Push(held)
+		orig = append(orig, held)
+		levels[k] = level{s, orig}
+		below = s
+	}
+	desc := map[string]any{"depth": depth, "nils_per_level": nils}
+	if p, msg, site := Guard(func() { levels[0].s.Defrag() }); p {
+		c.Violatef("panic:"+site+":tower", desc, "Defrag panicked on a tower of %d levels: %s", depth, msg)
+		return
+	}
+	for k, lv := range levels {
+		want := []any{lv.orig[0], lv.orig[len(lv.orig)-1]}
+		if got := contentOf(lv.s); !sameContent(got, want) {
+			c.Violatef("tower:level-not-compacted", desc, "level %d of %d (reached through %d nested Stacks / Condition expressions) holds %d elements after Defrag of the top, expected %d: %s", k, depth, k, len(got), len(want), showList(got))
+			return
+		}
+	}
+	c.Count("towers")
+	c.NontrivialStr(fmt.Sprintf("tower|%d|%d", depth>>6, nils))
+}
+
 func c19Run(c *core.Ctx, idx int) {
 	maxLen, exh, long, _ := c19Tier(c.Tier)
 	_ = maxLen
 	r := c.Rng
+	if idx >= exh && idx%2000 == 1999 {
+		c19Tower(c)
+		return
+	}
 	switch {
 	case idx < exh:
 		opt := idx % 4
@@ -535,6 +599,24 @@ func c19Run(c *core.Ctx, idx int) {
 			} else {
 				b[i] = 'x'
 			}
+		}
+		if idx%500 == 250 {
+			// stacks of another magnitude with a handful of short gaps (judged by the same step-by-step model)
+			L = []int{255, 257, 4095, 4097, 5000, 65535, 65537, 65540, 70000}[r.Intn(9)]
+			if c.Tier == "thorough" && r.Chance(1, 3) {
+				L = []int{140000, 1<<20 + 3}[r.Intn(2)]
+			}
+			b = bytes.Repeat([]byte{'x'}, L)
+			for g, gaps := 0, r.Range(1, 6); g < gaps; g++ {
+				at := r.Intn(L - 8)
+				if r.Chance(1, 2) {
+					at = L - 8 - r.Intn(40) // near the far end
+				}
+				for k, run := 0, r.Range(1, 5); k < run; k++ {
+					b[at+k] = '.'
+				}
+			}
+			c.Count("patterns.another-magnitude")
 		}
 		lim := c19Limits[r.Intn(3)]
 		if r.Chance(1, 8) {
